@@ -269,6 +269,20 @@ fn core_part(tier: Tier) -> Part<'static, LockStep> {
     }
 }
 
+static SYS_CORE_MERGED: LockStep = LockStep { property: "C04", probes: false, seed: None, via_feed: false, merged: true };
+
+/// the core alphabet again, less deep, with twin terminals that get the same history with
+/// fewer call boundaries (two ops per call, even and odd phase) - see DESIGN 3.2
+fn core_merged_part(tier: Tier) -> Part<'static, LockStep> {
+    let mut p = core_part(tier);
+    p.name = "print-core-with-merged-calls";
+    p.sys = &SYS_CORE_MERGED;
+    p.cfgs.retain(|c| c.limit.is_none());
+    p.depth = tier.pick(5, 7);
+    p.seconds = tier.pick(15.0, 900.0);
+    p
+}
+
 static SYS_SWEEP: LockStep = LockStep { property: "C04", probes: false, seed: Some(&super::sweep::fill), via_feed: false, merged: false };
 
 fn alpha_sweep(cfg: &Cfg) -> Vec<Op> {
@@ -337,6 +351,7 @@ pub fn run(ctx: &Ctx) -> Report {
     run_part(ctx, &mut rep, &super::sweep::wide_part("print-realistic-screen-parameter-sweep", &SYS_SWEEP, &alpha_wide, ctx.tier));
     run_part(ctx, &mut rep, &super::sweep::wide_part("print-realistic-screen-sparse-content", &SYS_SPARSE, &alpha_wide, ctx.tier));
     run_part(ctx, &mut rep, &core_part(ctx.tier));
+    run_part(ctx, &mut rep, &core_merged_part(ctx.tier));
     very_long_logical_line(ctx, &mut rep);
     run_part(ctx, &mut rep, &super::sweep::mode_part(&SYS_MODES, ctx.tier));
     super::sweep::mode_number_sweep(ctx, &mut rep, &SYS_MODES);
@@ -363,6 +378,9 @@ pub fn replay(ctx: &Ctx, v: &Value) -> bool {
     }
     if v["part"] == "print-core-deep" {
         return replay_part(ctx, &core_part(tier), v);
+    }
+    if v["part"] == "print-core-with-merged-calls" {
+        return replay_part(ctx, &core_merged_part(tier), v);
     }
     if v["part"] == "print-lockstep-medium-screen" {
         return replay_part(ctx, &medium_part(tier), v);
